@@ -21,7 +21,7 @@ var Table = map[string]*Property{}
 
 func add(p *Property) { Table[p.ID] = p }
 
-const structural = " This is a structural necessary-condition check: it decides the listed shape conditions on every path of the code that implements the mechanism, not the behavioural statement as a whole."
+const structural = " In the functions of the mechanism's packages no value that is tested against nil at one place is dereferenced at another where no test has shown it non-nil since it was obtained, and no branch on a field is decided by a store the path itself just made (contradiction rules R19/R20: a panic or a dead guard replaces the specified behaviour). This is a structural necessary-condition check: it decides the listed shape conditions on every path of the code that implements the mechanism, not the behavioural statement as a whole."
 
 func init() {
 	add(&Property{
